@@ -27,6 +27,12 @@ def main(tier, seed):
     rep.coverage["tracevm_selftest_rejected"] = tracevm.selftest(bins[0][1])
     profcheck.run_scenarios(rep, "exception", scenarios.exception_scenarios(), bins, PROP)
     profcheck.run_scenarios(rep, "exitpaths", scenarios.exit_path_scenarios(), bins, PROP)
+    # "with the handling function's variables intact": closures over variables above the handler's stack height escaped before
+    # the exception; the handler's own locals reuse those slots while the closures are still being called
+    profcheck.run_scenarios(rep, "handlerintact", scenarios.handler_intact_scenarios(), bins, PROP)
+    # any value can be thrown (nil, false, 0, "", containers, classes, closures, instances): delivery and re-raising after finally
+    # blocks must not depend on what the value is
+    profcheck.run_scenarios(rep, "thrownvalues", scenarios.thrown_value_scenarios(), bins, PROP)
     # handlers in the presence of the other control transfers: a fiber switch made from inside try / catch / finally blocks (with a
     # completion pending), and exceptions that cross a module boundary on their way to the handler (whose globals must be its own)
     profcheck.run_scenarios(rep, "switchcontexts", scenarios.fiber_switch_context_scenarios(), bins, PROP)
